@@ -423,7 +423,12 @@ impl Session {
         let chosen_index = self.choose_piece_index(addr).await;
         let peer = self.peers.get_mut(addr).ok_or(Error::PeerNotFound)?;
         let cmd = peer.handle_unchoke(chosen_index, &mut self.pieces_status, &self.metainfo);
+        let nothing_to_get = matches!(cmd, UnchokeCmd::SendNotInterested);
         let _ = &resp_ch.send(cmd);
+
+        if nothing_to_get {
+            self.try_next_candidate();
+        }
         Ok(true)
     }
 
@@ -479,8 +484,18 @@ impl Session {
 
         let peer = self.peers.get_mut(addr).ok_or(Error::PeerNotFound)?;
         let cmd = peer.handle_bitfield(chosen_index, unchoked_num);
+        let nothing_to_get = matches!(
+            cmd,
+            BitfieldCmd::SendState {
+                am_interested: false,
+                ..
+            }
+        );
         let _ = &resp_ch.send(cmd);
 
+        if nothing_to_get {
+            self.try_next_candidate();
+        }
         Ok(true)
     }
 
@@ -521,10 +536,13 @@ impl Session {
         let chosen_index = self.choose_piece_index(addr).await;
         let peer = self.peers.get_mut(addr).ok_or(Error::PeerNotFound)?;
         let cmd = peer.handle_piece(chosen_index, &mut self.pieces_status, &self.metainfo);
+        let nothing_to_get = matches!(cmd, PieceCmd::SendNotInterested);
         let _ = resp_ch.send(cmd);
 
         // Last piece stored: extract files now, not only when some peer disconnects
-        self.extract_files_when_complete().await;
+        if !self.extract_files_when_complete().await && nothing_to_get {
+            self.try_next_candidate();
+        }
         Ok(true)
     }
 
@@ -550,7 +568,12 @@ impl Session {
         let chosen_index = self.choose_piece_index(addr).await;
         let peer = self.peers.get_mut(addr).ok_or(Error::PeerNotFound)?;
         let cmd = peer.handle_piece(chosen_index, &mut self.pieces_status, &self.metainfo);
+        let nothing_to_get = matches!(cmd, PieceCmd::SendNotInterested);
         let _ = resp_ch.send(cmd);
+
+        if nothing_to_get {
+            self.try_next_candidate();
+        }
         Ok(true)
     }
 
@@ -689,6 +712,19 @@ impl Session {
         self.log("Starting file extractor".to_string()).await;
         let mut extractor = Extractor::new(self.metainfo.clone(), self.extractor.tx_ch.clone());
         self.extractor.job = Some(tokio::spawn(async move { extractor.run().await }));
+    }
+
+    /// Connected peer has nothing (more) for us but stays connected: while some pieces are still
+    /// missing connect to next peer listed by tracker, so it is not left out for ever.
+    fn try_next_candidate(&mut self) {
+        let have_all = self
+            .pieces_status
+            .iter()
+            .all(|status| *status == Status::Have);
+
+        if !have_all {
+            self.spawn_peer_handler();
+        }
     }
 
     fn spawn_peer_handler(&mut self) {
